@@ -57,7 +57,7 @@ def st_soc(tier):
             if draw(st.integers(0, 3)) == 0:
                 # one register pinned at a fixed location of its bank; lower locations that stay unused get filler registers
                 regs[draw(st.integers(0, len(regs) - 1))]["n"] = draw(st.integers(0, 6))
-            mem = draw(st.one_of(st.none(), st.none(), st.sampled_from([[32, 8], [32, 16], [8, 16], [16, 8]])))
+            mem = draw(st.one_of(st.none(), st.none(), st.sampled_from([[32, 8], [32, 16], [8, 16], [16, 8], [64, 8], [40, 12], [32, 600], [64, 300], [8, 1100]])))
             slot = draw(st.one_of(st.none(), st.none(), st.integers(4, 12)))
             ev = draw(st.one_of(st.none(), st.fixed_dictionaries({"n": st.integers(1, 3), "irq": st.one_of(st.none(), st.none(), st.integers(0, 31))})))
             const = draw(st.one_of(st.none(), st.integers(0, 2 ** 32 - 1)))
@@ -284,15 +284,21 @@ def _formats_more(case, soc, js, hdr, csv, hdefs, hfuncs, cls):
     svd_regs, svd_irqs, svd_mems, svd_consts = _parse_svd(export.get_csr_svd(soc, description="x"))
     # -- registers: every (address, bit origin) pair of the SVD must be the one the accessors use
     for name, r in js["csr_registers"].items():
-        per = next((b for b in sorted(js["csr_bases"], key=len, reverse=True) if name.startswith(b + "_")), None)
-        if per is None or per.upper() not in svd_regs:
+        # the peripheral a register belongs to: a base name that prefixes it (a memory window "p0_win" also has a base, so
+        # "p0_win_page" is looked up under every prefixing base, longest first, and the first that lists it decides)
+        cands = [b for b in sorted(js["csr_bases"], key=len, reverse=True) if name.startswith(b + "_") and b.upper() in svd_regs]
+        if not cands:
             return bad("formats", "register %s: no SVD peripheral for it" % name, key="c14:formats-svd", cls=cls)
-        base, lst = svd_regs[per.upper()]
-        short = name[len(per) + 1:]
-        if r["size"] == 1:
-            got = sorted((base + off, 0) for (n_, off, org, owner) in lst if n_ == short.upper() and owner is None)
-        else:
-            got = sorted((base + off, org) for (n_, off, org, owner) in lst if owner == name.upper())
+        got = []
+        for per in cands:
+            base, lst = svd_regs[per.upper()]
+            short = name[len(per) + 1:]
+            if r["size"] == 1:
+                got = sorted((base + off, 0) for (n_, off, org, owner) in lst if n_ == short.upper() and owner is None)
+            else:
+                got = sorted((base + off, org) for (n_, off, org, owner) in lst if owner == name.upper())
+            if got:
+                break
         want = _acc_pairs(name, r, hfuncs, busword)
         if got != want:
             return bad("formats", "register %s: SVD places it at %s (address, first bit), header/JSON at %s" %
@@ -419,7 +425,10 @@ def run_soc(case):
     for (name, rw), ct in hfuncs["ctypes"].items():
         if name in objs and cbits.get(ct, 0) < objs[name].size:
             return bad("accessor-type", "%s_%s() uses %s for a %d-bit register" % (name, rw, ct, objs[name].size), key="c14:accessor-type", cls=cls)
+    page_regs = {rn + "_page" for rn, rg in soc.csr_regions.items() if isinstance(rg.obj, Memory)}
     for n, (name, o) in enumerate(storages):
+        if name in page_regs:
+            continue                  # written (and thereby checked) by the window accesses below
         r = js["csr_registers"][name]
         val = uniq(n, o.size)
         if name.endswith("_ev_enable"):
@@ -455,9 +464,22 @@ def run_soc(case):
             mem = region.obj
             base = js["csr_bases"][rname]
             per = (mem.width + busword - 1) // busword
-            for word in (0, mem.depth - 1):
-                idx = [len(ops)]
-                ops.append({"we": 0, "adr": (base >> 2) + word * per, "dat": 0, "sel": 15, "gap": 1})
+            pgw = case["paging"] // 4                  # CSR words per page
+            wpp = max(1, pgw // per)                   # memory words shown per page
+            paged = mem.depth * per > pgw
+            words = [0, mem.depth - 1] + ([wpp - 1, wpp, wpp + 1] if paged and mem.depth > wpp + 1 else [])
+            for word in words:
+                idx = []
+                if paged:
+                    # a window larger than one page shows the page selected by its published page register
+                    pr = js["csr_registers"].get(rname + "_page")
+                    if pr is None:
+                        return bad("memory-window", "CSR memory %s (%d x %d bit) needs %d CSR words but no page register %s_page is published" %
+                                   (rname, mem.depth, mem.width, mem.depth * per, rname), key=_k(case, "c14:memory-window"), cls=cls)
+                    idx.append(len(ops))
+                    ops.append({"we": 1, "adr": pr["addr"] >> 2, "dat": word // wpp, "sel": 15, "gap": 1})
+                idx.append(len(ops))
+                ops.append({"we": 0, "adr": (base >> 2) + (word % wpp) * per, "dat": 0, "sel": 15, "gap": 1})
                 plan.append(("csrmem", rname, (mem, word), idx))
     # published memory regions: every RAM gets a unique value at its first and last word, all written first and read back
     # afterwards (two regions answering from the same memory, or a region answering outside its window, then show)
@@ -559,9 +581,9 @@ def run_soc(case):
             per = (mem.width + busword - 1) // busword
             exp = mem.init[word] if mem.init and word < len(mem.init) else 0
             exp_word = (exp >> ((per - 1) * busword)) & _m(busword) if per > 1 else exp & _m(busword)
-            if (res[idx[0]][0] & _m(min(busword, mem.width))) != (exp_word & _m(min(busword, mem.width))):
+            if (res[idx[-1]][0] & _m(min(busword, mem.width))) != (exp_word & _m(min(busword, mem.width))):
                 return bad("memory-window", "%s: CSR memory %s published at %#x: word %d reads %#x, memory holds %#x" %
-                           (ctx, name, js["csr_bases"][name], word, res[idx[0]][0], exp), key=_k(case, "c14:memory-window"), cls=cls, cycles=cyc)
+                           (ctx, name, js["csr_bases"][name], word, res[idx[-1]][0], exp), key=_k(case, "c14:memory-window"), cls=cls, cycles=cyc)
         elif kind == "region":
             word, v, m_ = val
             if res[idx[1]][0] != v:
